@@ -224,6 +224,35 @@ def MixedDoc.text (c : UInt8) (f : Nat) (d : MixedDoc) : Bytes :=
   d.key.scal.text ++ ([61, 123] ++ (([10] ++ ind c f 1) ++ (d.first.scal.text ++ (elemsText d.rest ++
     (pairsText d.pairs ++ [10, 125])))))
 
+def pairToks : List (SCall × Writer.Op × SCall) → List TextTape.Tok
+  | [] => []
+  | (a, o, b) :: r => (a.scal.tok []).erase :: (TextTape.Tok.operator (opTT o) :: ((b.scal.tok []).erase :: pairToks r))
+
+def elemToksS : List SCall → List TextTape.Tok
+  | [] => []
+  | e :: r => (e.scal.tok []).erase :: elemToksS r
+
+/-- what the call list describes: the key, an array (flagged mixed when there are pairs) with the
+elements, `MixedContainer`, then key / operator / value for every pair (`=` is kept as a token in
+the array part), `End` -/
+def mixedTape (d : MixedDoc) : List TextTape.Tok :=
+  match d.pairs with
+  | [] =>
+    [(d.key.scal.tok []).erase, TextTape.Tok.array (3 + d.rest.length) false, (d.first.scal.tok []).erase] ++
+      elemToksS d.rest ++ [TextTape.Tok.endTok 1]
+  | ps =>
+    [(d.key.scal.tok []).erase, TextTape.Tok.array (3 + d.rest.length + 1 + 3 * ps.length) true,
+      (d.first.scal.tok []).erase] ++ elemToksS d.rest ++ (TextTape.Tok.mixedContainer :: pairToks ps) ++ [TextTape.Tok.endTok 1]
+
+/-- what has to be assumed of the call list: valid scalars; no `?=` (it is no operator inside an
+array: `d?=e` reads as the key `d?`); and, when nothing stands between the first element and the
+first pair, the key of that pair is not the bare `?` (`{ 1 ?=b }` reads as the object `1 ?= b`) -/
+def MixedDoc.Good (d : MixedDoc) : Prop :=
+  d.key.ValidX ∧ d.first.ValidX ∧ (∀ e ∈ d.rest, e.ValidX) ∧
+    (∀ p ∈ d.pairs, p.1.ValidX ∧ p.2.1 ≠ .exists ∧ p.2.2.ValidX) ∧
+    (d.rest = [] → ∀ p ∈ d.pairs.head?, p.1.scal.text ≠ [63])
+
+
 /-- the shape of what `std`'s `Display` prints for a finite `f32` / `f64` (with or without a
 precision): an optional `-`, at least one digit, optionally `.` and at least one digit.  `Display`
 never switches to exponent notation, whatever the magnitude (`1e300` prints as a 1 followed by
